@@ -384,6 +384,13 @@ def make_bundle(cfg, col):
 def work(item, col):
     cfg = item
     cap = cfg["cap"]
+    try:
+        make_bundle(cfg, e1.NullCol())
+    except Exception as e:  # noqa: BLE001
+        # every configuration here passes documented constructor arguments (capacity, keys, dtypes, discrete_actions)
+        col.tick(1)
+        col.violation(SIG.format((("MultiTaskReplayBuffer(" + cfg["cls"] + ")") if cfg["tasks"] else cfg["cls"]) + ".__init__", "constructor-raised-on-documented-arguments"), dict(config=cfg["name"], error=f"{type(e).__name__}: {str(e)[:200]}"))
+        return
     res = e1.bfs(
         make=lambda: make_bundle(cfg, col),
         ops=ops,
